@@ -260,6 +260,38 @@ def mit_client_interop(wd):
              "accepted_by_gokrb5": sum(1 for x in lines if x["accepted"]), "rejected_lines": len(bad)}, [lines[i - 1] for i in bad])
 
 
+PAC_NOT_COMPARABLE = {
+    "kdcdecl": "MIT does not look at the KDC signature's declared type when no KDC key is given; gokrb5 and the specification need it to know how many octets to zero",
+    "rodc": "MIT 1.20 zeroes the whole remainder of a signature buffer, RODC identifier included; [MS-PAC] 2.8 zeroes the Signature field only (the specification follows MS-PAC)",
+    "remove": "MIT's krb5_pac_verify without a principal does not require the logon-info and client-info buffers",
+    "sigs-only": "as for remove",
+    "sig6-then-garbage": "MIT refuses a PAC with two buffers of one type; [MS-PAC] 2.4 says later ones are ignored"}
+
+
+def mit_pac_cross(models, images):
+    """PACVerify (the decision procedure of C19) against MIT's krb5_pac_parse + krb5_pac_verify on the images the specification
+    rendered and signed: MIT's verdict must equal the intended one (= PACVerify!Decide, checked by GenC19) wherever the two are
+    comparable (PAC_NOT_COMPARABLE lists the variants where MIT knowingly follows other rules)."""
+    import re
+    exe = build_mitref()
+    if exe is None:
+        return {"available": False}
+    reqs = ["pac %s %d %s" % (im["image"] or "-", im["vet"], im["vkey"]) for im in images]
+    outs = mit(exe, reqs)
+    agree, skipped, dis = 0, {}, []
+    for m, im, o in zip(models, images, outs):
+        variant = re.sub(r"-?\d+(\(type\d+\))?$", "", m["name"].split("/")[-1]).rstrip("-")
+        if variant in PAC_NOT_COMPARABLE:
+            skipped[variant] = skipped.get(variant, 0) + 1
+            continue
+        if (o["parse"] == 0 and o["rc"] == 0) == (m["expect"] == "accept"):
+            agree += 1
+        else:
+            dis.append({"name": m["name"], "expect": m["expect"], "mit_parse": o["parse"], "mit_verify": o["rc"]})
+    return {"available": True, "images_compared": agree + len(dis), "accepted_by_both": sum(1 for m, im, o in zip(models, images, outs) if m["expect"] == "accept" and o["parse"] == 0 and o["rc"] == 0),
+            "not_comparable": skipped, "disagreements": len(dis), "first": dis[:5]}
+
+
 NOMINAL = {"sealedBy": "sel", "kvnoLabel": "k2", "realmLabel": "R", "snameLabel": "P", "etLabel": "E", "tktCipher": "intact", "tktUsage": "right", "trailer": "none",
            "start": "past", "end": "future", "invalid": "no", "caddr": "none", "authKey": "session", "authUsage": "right", "authCipher": "intact", "cname": "match",
            "crealm": "match", "ctime": "now", "pac": "none"}
